@@ -244,7 +244,8 @@ func (g *Gen) amount(label string, bal *big.Int) []byte {
 }
 
 func (g *Gen) issueAmount(label string) []byte {
-	return pickFrom(g, label, [][]byte{{1}, {2}, {100}, {1, 0, 0}, new(big.Int).Add(new(big.Int).Lsh(big.NewInt(1), 64), big.NewInt(5)).Bytes(), new(big.Int).Lsh(big.NewInt(1), 200).Bytes()})
+	return pickFrom(g, label, [][]byte{{1}, {2}, {100}, {1, 0, 0}, new(big.Int).Add(new(big.Int).Lsh(big.NewInt(1), 64), big.NewInt(5)).Bytes(), new(big.Int).Lsh(big.NewInt(1), 200).Bytes(),
+		new(big.Int).Lsh(big.NewInt(1), 64).Bytes(), new(big.Int).Lsh(big.NewInt(1), 128).Bytes(), bytes.Repeat([]byte{0xff}, 32), {255}, {1, 0}})
 }
 
 // dest picks a destination relative to the sender: any holder, biased to "other account".
@@ -703,6 +704,10 @@ func (g *Gen) genTransfer() *Call {
 		from, token = g.addr("tr-from"), g.tokenOfKind("tr-token", "F")
 	}
 	to := g.dest("tr-to", from)
+	if g.pick("tr-self", 25) == 0 {
+		to = from // the same account as sender and destination
+		g.Shape = append(g.Shape, "to-self")
+	}
 	args := [][]byte{token, g.amount("tr-amount", bal)}
 	args = append(args, g.attachedCall("tr-call", to)...)
 	c := &Call{Shard: g.shard(from), Fn: vmcommon.BuiltInFunctionESDTTransfer, Caller: cp(from), Rcv: cp(to), Args: hbs(args...)}
@@ -767,7 +772,10 @@ func (g *Gen) genMulti() *Call {
 		}
 	}
 	to := g.dest("mu-to", from)
-	n := pickFrom(g, "mu-n", []int{1, 1, 2, 2, 3, 4})
+	n := pickFrom(g, "mu-n", []int{1, 1, 2, 2, 3, 4, 1, 2, 3, 9})
+	if g.pick("mu-many", 400) == 0 {
+		n = 256 // a count that needs two bytes
+	}
 	args := [][]byte{to, big.NewInt(int64(n)).Bytes()}
 	kinds := map[bool]int{}
 	for i := 0; i < n; i++ {
@@ -778,7 +786,7 @@ func (g *Gen) genMulti() *Call {
 		h := own[g.pick("mu-item", len(own))]
 		kinds[h.nonce != 0]++
 		var amt []byte
-		if n > 1 && rapid.Bool().Draw(g.t, "mu-small") {
+		if n > 4 || (n > 1 && rapid.Bool().Draw(g.t, "mu-small")) {
 			amt = []byte{1}
 		} else {
 			amt = g.amount("mu-amount", h.e.Value)
@@ -1029,6 +1037,25 @@ func (g *Gen) genGasOp() Op {
 		vals[i] = perm[i] * base
 	}
 	gm := GasMapFrom(vals)
+	// sometimes only ONE of the two sections differs from the schedule in force (or nothing at all)
+	cur := g.e.M.Shards[sh].Gas
+	switch g.pick("gas-sections", 6) {
+	case 0: // only the per-byte section changes
+		for _, n := range builtInCostNames {
+			gm[vmcommon.BuiltInCostString][n] = cur[n]
+		}
+	case 1: // only the built-in section changes
+		for _, n := range baseCostNames {
+			gm[vmcommon.BaseOperationCostString][n] = cur[n]
+		}
+	case 2: // identical schedule
+		for _, n := range builtInCostNames {
+			gm[vmcommon.BuiltInCostString][n] = cur[n]
+		}
+		for _, n := range baseCostNames {
+			gm[vmcommon.BaseOperationCostString][n] = cur[n]
+		}
+	}
 	switch g.pick("gas-valid", 4) {
 	case 0: // invalid: one entry zeroed
 		i := g.pick("gas-zero", 22)
